@@ -785,10 +785,9 @@ impl NodeToInsert {
         let node = self.node.as_ref().unwrap();
 
         if let Some(room_id) = &node.room_id {
+            //the previous version leaves its day, even when it stays in the same room
             if let Some(old_id) = &self.old_room_id {
-                if !room_id.eq(old_id) {
-                    daily_log.set_need_update(*old_id, &node._entity, self.old_mdate);
-                }
+                daily_log.set_need_update(*old_id, &node._entity, self.old_mdate);
             }
             daily_log.set_need_update(*room_id, &node._entity, node.mdate);
         }
